@@ -10,6 +10,14 @@ model   : Lean endpoint model `ep` over the consumer + framer models on the same
 oracle  : delivered items are a prefix of the reference decoding of the bytes sent before the close; when end-of-stream is
           reported they are all of it; nothing is delivered from a trailing incomplete frame; after the first end-of-stream
           every call reports it again without reading from the transport (and without blocking).
+          TCP clients: the end of the stream is reported with the documented class (ConnectionAbortedError - never
+          ClientClosedError or a raw connection error).  After an ABORTIVE close (peer RST, a send of ours on the dead
+          connection) completeness is not demanded for bytes still in the kernel / the event loop's buffers, but the packets
+          the endpoint had already taken out of the transport (coalesced in one read with a delivered packet) must all be
+          delivered before the first end-of-stream.
+TCP case families (oracle only): `settle` - every call after the peer's FIN / RST;  `mid` - the fault happens BETWEEN
+          receives: k receives of a coalesced burst, then the peer's FIN / RST and / or our own send_packet() on the dead
+          connection, noticed by the event loop or not, then receives of every kind (_run_tcp_mid).
 """
 from __future__ import annotations
 
@@ -53,7 +61,10 @@ TRUSTED_BASE = [
 ASSUMPTIONS = ["a read that would block for ever is represented by the script running out (`stuck`)",
                "consumers always offer at least one byte of buffer (C01_sep_buffered_room)"]
 RULE = ("case = serializer x path x API x script (chunking, would-block/reset/oserr, close position) x call history (timeouts None/>0/0); "
-        "non-trivial = close inside a frame or before any data, or a would-block/zero-timeout call, or calls after end-of-stream; distinct by digest")
+        "TCP clients additionally: peer close FIN/RST before the calls, or BETWEEN receives (after k packets of a coalesced burst) "
+        "x our own send_packet() before/after it x event-loop turns before the next call; "
+        "non-trivial = close inside a frame or before any data, or a would-block/zero-timeout call, or calls after end-of-stream, "
+        "or a fault between receives; distinct by digest")
 
 _aux: dict[str, Any] = {}
 _loop: asyncio.AbstractEventLoop | None = None
@@ -164,7 +175,10 @@ def _classify(exc: BaseException, client: bool) -> str:
     if isinstance(exc, ConnectionAbortedError):
         return "eos"
     if isinstance(exc, ConnectionError):
-        return "eos" if client else "connerr"
+        # the clients document ONE way of reporting the end of the stream: ConnectionAbortedError (they convert every
+        # connection error); anything else - ClientClosedError ("closed by the user", which never happens in these cases),
+        # a raw ConnectionResetError / BrokenPipeError - is reported as what it is and judged by the oracle
+        return f"eos-as {type(exc).__name__}" if client else "connerr"
     if isinstance(exc, OSError):
         return "oserr"
     return f"exc {type(exc).__name__}"
@@ -326,7 +340,188 @@ def _run_tcp(case: dict) -> list[str]:
     return lines
 
 
+def _run_tcp_mid(case: dict) -> list[str]:
+    """TCPNetworkClient / AsyncTCPNetworkClient over loopback, the connection fault happens BETWEEN receives.
+
+    The peer writes all data events; the harness waits until every byte is at our side (blocking client: FIONREAD == total;
+    asynchronous client: the event loop has taken everything out of the kernel), so that the first read of the endpoint
+    takes min(read size, everything) and complete packets coalesced with the first one wait in the endpoint's CONSUMER.
+    Then the calls run in order; among them
+        {"k": "close"}   the peer closes NOW - FIN, or RST (SO_LINGER 0) - and the harness waits for the kernel's own
+                         notification on a dup of our descriptor (POLLRDHUP resp. POLLERR|POLLHUP; no sleep), then gives the
+                         event loop `noticed` turns (asynchronous client; 0 = the next call is the first to touch the dead socket)
+        {"k": "send"}    our own send_packet() (on the dead connection: it fails, or provokes the reset); after it the harness
+                         waits for the reset the peer's kernel answers with (POLLERR|POLLHUP, at most 1 s)
+    Lines: as _run_tcp, plus `fault close` / `send ok` / `send <ExceptionClass>` markers (not judged)."""
+    import fcntl
+    import os
+    import random as _random
+    import select as _select
+    import struct as _st
+    import termios
+    import time as _time
+
+    from easynetwork.clients.async_tcp import AsyncTCPNetworkClient
+    from easynetwork.clients.tcp import TCPNetworkClient
+
+    proto = sd.make_protocol(case["spec"], case["path"])
+    to_send = sers.gen_packet(_random.Random(5), sers.send_spec(case["spec"]), 3)
+    srv = socket.socket()
+    srv.bind(("127.0.0.1", 0))
+    srv.listen(1)
+    port = srv.getsockname()[1]
+    events = _events(case)
+    total = sum(len(ev[1]) for ev in events if ev[0] == "data")
+    sent_ev = threading.Event()
+    close_now = threading.Event()
+    closed_ev = threading.Event()
+    rst = case.get("close") == "rst"
+    noticed = int(case.get("noticed", 3))
+
+    def peer():
+        conn, _ = srv.accept()
+        conn.setsockopt(socket.IPPROTO_TCP, socket.TCP_NODELAY, 1)
+        for ev in events:
+            if ev[0] == "data":
+                conn.sendall(ev[1])
+            elif ev[0] == "eof":
+                break
+        sent_ev.set()
+        close_now.wait(30)
+        if rst:
+            conn.setsockopt(socket.SOL_SOCKET, socket.SO_LINGER, _st.pack("ii", 1, 0))
+        conn.close()
+        closed_ev.set()
+
+    th = threading.Thread(target=peer, daemon=True)
+    th.start()
+    lines: list[str] = []
+    calls = case["calls"]
+    state = {"fault": False, "seen_eos": False}
+
+    def fionread(fd: int) -> int:
+        return _st.unpack("i", fcntl.ioctl(fd, termios.FIONREAD, b"\0\0\0\0"))[0]
+
+    def wait_flags(fd: int, mask: int, ms: int) -> bool:
+        p = _select.poll()
+        p.register(fd, mask)      # POLLERR / POLLHUP are always reported
+        t_end = _time.monotonic() + ms / 1000
+        while True:
+            for _fd, ev in p.poll(max(0, int((t_end - _time.monotonic()) * 1000))):
+                if ev & (mask | _select.POLLERR | _select.POLLHUP):
+                    return True
+            if _time.monotonic() >= t_end:
+                return False
+
+    def do_close(fd: int) -> None:
+        close_now.set()
+        closed_ev.wait(5)
+        ok = wait_flags(fd, 0 if rst else _select.POLLRDHUP, 5000)
+        lines.append("fault close" if ok else "harness-exc fault not notified by the kernel")
+        state["fault"] = True
+
+    def tmo_of(t: str) -> float:
+        if t == "zero":
+            return 0
+        return 5.0 if not (state["fault"] or state["seen_eos"]) else (2.0 if not state["seen_eos"] else 0.5)
+
+    def note(r: str) -> None:
+        lines.append(r)
+        if r.startswith("eos"):
+            state["seen_eos"] = True
+
+    dupfd = -1
+    try:
+        if case["api"] == "tcp":
+            with TCPNetworkClient(("127.0.0.1", port), proto, max_recv_size=case["maxrecv"]) as client:
+                dupfd = os.dup(client.socket.fileno())
+                sent_ev.wait(5)
+                for _ in range(2000):
+                    if fionread(dupfd) >= total:
+                        break
+                    _time.sleep(0.001)
+                else:
+                    lines.append("harness-exc bytes did not arrive")
+                for call in calls:
+                    k, t = call.get("k", "recv"), call.get("t", "none")
+                    try:
+                        if k == "close":
+                            do_close(dupfd)
+                        elif k == "send":
+                            try:
+                                client.send_packet(to_send, timeout=2.0)
+                                lines.append("send ok")
+                            except OSError as e:
+                                lines.append(f"send {type(e).__name__}")
+                            if state["fault"]:
+                                wait_flags(dupfd, 0, 1000)
+                        elif k == "iter":
+                            for p in client.iter_received_packets(timeout=tmo_of(t)):
+                                lines.append(sd.pkt_line(p))
+                            lines.append("iter-end")
+                        else:
+                            lines.append(sd.pkt_line(client.recv_packet(timeout=tmo_of(t))))
+                    except Exception as e:  # noqa: BLE001
+                        note(_classify(e, True))
+        else:
+            async def main():
+                nonlocal dupfd
+                async with AsyncTCPNetworkClient(("127.0.0.1", port), proto, max_recv_size=case["maxrecv"]) as client:
+                    backend = client.backend()
+                    dupfd = os.dup(client.socket.fileno())
+                    while not sent_ev.is_set():
+                        await asyncio.sleep(0.001)
+                    # every byte is at our socket (loopback: queued when sendall() returned): let the event loop take them
+                    for _ in range(2000):
+                        if fionread(dupfd) == 0:
+                            break
+                        await asyncio.sleep(0)
+                    else:
+                        lines.append("harness-exc bytes left in the kernel")
+                    for call in calls:
+                        k, t = call.get("k", "recv"), call.get("t", "none")
+                        try:
+                            if k == "close":
+                                do_close(dupfd)
+                                for _ in range(noticed):
+                                    await asyncio.sleep(0)
+                            elif k == "send":
+                                try:
+                                    await asyncio.wait_for(client.send_packet(to_send), 2.0)
+                                    lines.append("send ok")
+                                except OSError as e:
+                                    lines.append(f"send {type(e).__name__}")
+                                if state["fault"]:
+                                    wait_flags(dupfd, 0, 1000)
+                                    for _ in range(noticed):
+                                        await asyncio.sleep(0)
+                            elif k == "iter":
+                                async def drain_iter():
+                                    async for p in client.iter_received_packets(timeout=tmo_of(t)):
+                                        lines.append(sd.pkt_line(p))
+                                await asyncio.wait_for(drain_iter(), 20.0)
+                                lines.append("iter-end")
+                            elif t == "zero":
+                                with backend.timeout(0):
+                                    p = await client.recv_packet()
+                                lines.append(sd.pkt_line(p))
+                            else:
+                                lines.append(sd.pkt_line(await asyncio.wait_for(client.recv_packet(), tmo_of(t))))
+                        except Exception as e:  # noqa: BLE001
+                            note(_classify(e, True))
+            asyncio.run(main())
+    finally:
+        close_now.set()
+        th.join(5)
+        srv.close()
+        if dupfd >= 0:
+            os.close(dupfd)
+    return lines
+
+
 def run_real(case: dict) -> list[str]:
+    if case["api"] in ("tcp", "atcp") and case.get("mid"):
+        return _run_tcp_mid(case)
     if case["api"] in ("tcp", "atcp"):
         return _run_tcp(case)
     return _run_scripted(case)
@@ -375,6 +570,11 @@ def _expected(case: dict) -> tuple[list[str], bool]:
         elif e[0] == "eof":
             closed = True
             break
+    return _decode_items(spec, data), closed
+
+
+def _decode_items(spec: dict, data: bytes) -> list[str]:
+    """items of the frames completely contained in `data` (reference decoder: split on the separator / fixed size)"""
     ser = sers.build(sers.recv_spec(spec))
     sep = sers.separator(spec)
     n = sers.fixed_size(spec)
@@ -394,14 +594,86 @@ def _expected(case: dict) -> tuple[list[str], bool]:
                 exp.append(sd.pkt_line(ser.deserialize(data[i:i + n])))
             except DeserializeError:
                 exp.append("err parse")
-    return exp, closed
+    return exp
+
+
+def _taken_before_fault(case: dict, outs_before: list[str]) -> int | None:
+    """mid-fault TCP cases: number of bytes the endpoint has TAKEN OUT of the transport (into its consumer) by the calls made
+    before the fault.  Every byte was at our side before the first call, and the endpoint reads only when its consumer holds
+    no complete packet, so each read takes exactly min(read size, what is left): read size = max_recv_size (copying path) /
+    the whole consumer buffer (buffered path; claimed only when everything fits).  The observed outcomes of those calls are
+    cross-checked; None = no claim (not this scenario, or the outcomes are not the expected ones)."""
+    data = b"".join(bytes.fromhex(e[1]) for e in case["events"] if e[0] == "data")
+    total = len(data)
+    if case["path"] == "copy":
+        R = case["maxrecv"]
+    else:
+        proto = sd.make_protocol(case["spec"], "buffered")
+        with memoryview(proto.create_buffer(case["maxrecv"])) as mv:
+            R = mv.nbytes
+        if total > R:
+            return None
+    spec = case["spec"]
+    taken = 0
+    delivered = 0
+    sim: list[str] = []
+    asynchronous = case["api"] == "atcp"
+
+    def items(n: int) -> list[str]:
+        return _decode_items(spec, data[:n])
+
+    def one(reads: bool) -> bool:
+        nonlocal taken, delivered
+        while reads and len(items(taken)) <= delivered and taken < total:
+            taken = min(total, taken + R)
+        it = items(taken)
+        if len(it) > delivered:
+            sim.append(it[delivered])
+            delivered += 1
+            return True
+        return False
+
+    for call in case["calls"]:
+        k, t = call.get("k", "recv"), call.get("t", "none")
+        if k == "close":
+            break
+        if k == "send":
+            continue
+        reads = not (asynchronous and t == "zero")     # an asynchronous receive under an expired deadline cannot read
+        if k == "recv":
+            if not one(reads):
+                if t != "zero":
+                    return None       # would have waited: not generated
+                sim.append("timeout")
+        else:
+            if t != "zero":
+                return None
+            while one(reads):
+                pass
+    if sim != outs_before:
+        return None
+    return taken
 
 
 def oracle(case: dict, real: list[str]) -> str | None:
+    # the class of the end-of-stream report is judged on its own; everything else (order, completeness, stickiness) is judged
+    # on the history with every such report read as an end-of-stream
+    wrong = [(k, ln.split()[1]) for k, ln in enumerate(ln for ln in real if not ln.startswith(("nreads ", "send ", "fault ")) and ln != "iter-end")
+             if ln.startswith("eos-as ")]
+    why = _oracle_body(case, ["eos" if ln.startswith("eos-as ") else ln for ln in real])
+    if wrong:
+        k, name = wrong[0]
+        cls = (f"call #{k}: the end of the stream / the loss of the connection is reported as {name} instead of the documented "
+               "ConnectionAbortedError" + (" (the client was never closed by the user)" if "Closed" in name else ""))
+        return f"{why}; and {cls}" if why else cls
+    return why
+
+
+def _oracle_body(case: dict, real: list[str]) -> str | None:
     if any(ln.startswith(("harness-exc", "exc ")) for ln in real):
         return "unexpected exception: " + next(ln for ln in real if ln.startswith(("harness-exc", "exc ")))
     exp, closed = _expected(case)
-    outs = [ln for ln in real if not ln.startswith("nreads ") and ln != "iter-end"]
+    outs = [ln for ln in real if not ln.startswith(("nreads ", "send ", "fault ")) and ln != "iter-end"]
     nreads = [int(ln.split()[1]) for ln in real if ln.startswith("nreads ")]
     items = [ln for ln in outs if ln.startswith(("pkt ", "err "))]
     if items != exp[:len(items)]:
@@ -417,8 +689,28 @@ def oracle(case: dict, real: list[str]) -> str | None:
         # an abortive close (RST) may destroy data that was received but not yet read (TCP semantics; asyncio reports the
         # reset at once): the property speaks of the peer closing the stream, so completeness is demanded for FIN only;
         # order, exactly-once and stickiness are demanded in every case
-        if closed and before != exp and not any(e[0] in ("reset",) for e in case["events"]) and case.get("close") != "rst":
+        abortive = case.get("close") == "rst" or any(e[0] in ("reset",) for e in case["events"])
+        if case.get("mid"):
+            # our own send makes the close abortive: sent before the peer's close, the peer (which never reads) closes with
+            # unread data = RST instead of FIN; sent after it, the peer's kernel answers with a reset
+            k_eos = next(k for k, ln in enumerate(real) if ln == "eos")
+            abortive = abortive or any(ln.startswith("send ") for ln in real[:k_eos])
+        if closed and before != exp and not abortive:
             return f"end-of-stream reported after {len(before)} of {len(exp)} complete packets"
+        if case.get("mid") and before != exp:
+            # abortive close BETWEEN receives: what is still in the kernel / in the event loop's buffers may be lost, but what
+            # the endpoint has already taken out of the transport (coalesced with a delivered packet) must come first
+            k_fault = next((k for k, ln in enumerate(real) if ln.startswith("fault ")), None)
+            if k_fault is not None:
+                pre = [ln for ln in real[:k_fault] if not ln.startswith(("nreads ", "send ", "fault ")) and ln != "iter-end"]
+                taken = _taken_before_fault(case, pre)
+                if taken is not None:
+                    data = b"".join(bytes.fromhex(e[1]) for e in case["events"] if e[0] == "data")
+                    must = _decode_items(case["spec"], data[:taken])
+                    if len(before) < len(must):
+                        return (f"end-of-stream reported after {len(before)} packets although {len(must)} complete packets had "
+                                f"already been taken out of the transport before the connection was lost (received in the same "
+                                f"read as a delivered packet): {must[len(before):][:3]} never delivered")
         after = outs[i:]
         if any(o != "eos" for o in after):
             return f"after end-of-stream a later call returned {[o for o in after if o != 'eos'][:3]}"
@@ -428,7 +720,7 @@ def oracle(case: dict, real: list[str]) -> str | None:
 
 
 def nontrivial(case: dict, real: list[str]) -> str | None:
-    outs = [ln for ln in real if not ln.startswith("nreads ") and ln != "iter-end"]
+    outs = [ln for ln in real if not ln.startswith(("nreads ", "send ", "fault ")) and ln != "iter-end"]
     tags = []
     if outs.count("eos") >= 2:
         tags.append("sticky")
@@ -436,8 +728,10 @@ def nontrivial(case: dict, real: list[str]) -> str | None:
         tags.append("timeout")
     if case.get("close_inside"):
         tags.append("close-inside-frame")
-    if any(c["t"] == "zero" for c in case["calls"]):
+    if any(c.get("t") == "zero" for c in case["calls"]):
         tags.append("zero")
+    if case.get("mid"):
+        tags.append("fault-between-receives" + ("+send" if any(c.get("k") == "send" for c in case["calls"]) else ""))
     if not tags:
         return None
     return f"{case['api']}/{case['path']}/" + "+".join(tags)
@@ -455,7 +749,7 @@ def shrink(case: dict):
 
 
 def known_key(case: dict, real: list[str], why: str) -> str:
-    return f"api={case['api']},path={case['path']}"
+    return f"api={case['api']},path={case['path']}" + (",fault-between-receives" if case.get("mid") else "")
 
 
 def _gen_spec(rng) -> dict:
@@ -521,6 +815,44 @@ def _gen_case(rng, api: str) -> dict:
     return case
 
 
+def _gen_mid_case(rng, api: str) -> dict:
+    """TCP clients, the connection fault happens BETWEEN receives: k packets of a coalesced burst are received first, then the
+    peer closes (FIN / RST) and / or our own send_packet() hits the dead connection, then more receives of every kind"""
+    case = _gen_case(rng, api)
+    case.pop("settle", None)
+    case["mid"] = True
+    case["close"] = rng.choice(["rst", "rst", "fin"])
+    case["noticed"] = rng.choice([0, 1, 3, 3, 10])
+    case["maxrecv"] = rng.choice([2, 3, 8, 64, 16384, 16384, 16384])
+    if not any(e[0] == "eof" for e in case["events"]):
+        case["events"].append(["eof"])
+    data = b"".join(bytes.fromhex(e[1]) for e in case["events"] if e[0] == "data")
+    n_items = len(_decode_items(case["spec"], data))
+    pre: list[dict] = []
+    budget = n_items
+    for _ in range(rng.choice([0, 1, 1, 1, 2, 3])):
+        if rng.random() < 0.15:
+            pre.append({"k": "iter", "t": "zero"})
+            if api == "tcp":
+                budget = 0        # the blocking iterator takes everything that has arrived
+        elif budget > 0:
+            pre.append({"k": "recv", "t": rng.choice(["none", "none", "pos", "zero"])})
+            budget -= 1
+        elif api == "tcp" or rng.random() < 0.5:
+            pre.append({"k": "recv", "t": "zero"})
+    if rng.random() < 0.15:
+        pre.insert(rng.randint(0, len(pre)), {"k": "send"})
+    post: list[dict] = []
+    for _ in range(rng.randint(0, 4)):
+        r = rng.random()
+        if r < 0.3:
+            post.append({"k": "send"})
+        else:
+            post.append({"k": rng.choice(["recv", "recv", "iter"]), "t": rng.choice(["none", "pos", "zero", "zero"])})
+    case["calls"] = pre + [{"k": "close"}] + post + [{"k": "recv", "t": "none"}] * (n_items + 3)
+    return case
+
+
 def corpus() -> list[dict]:
     crlf = {"k": "line", "newline": "CRLF", "keep_end": False, "encoding": "ascii", "limit": 16}
     out = []
@@ -548,6 +880,25 @@ def corpus() -> list[dict]:
                 out.append({"spec": lf, "path": path, "api": api, "events": [["data", "410a420a430a"], ["data", "440a"], ["eof"]],
                             "settle": True, "close": close, "maxrecv": 4, "close_inside": False,
                             "calls": [{"k": "iter", "t": "zero"}] + [{"k": "recv", "t": "none"}] * 6})
+    # TCP clients: the fault happens BETWEEN receives: A is received (B and C, coalesced in the same read, wait in the endpoint's
+    # consumer), then the peer resets / closes the connection, and / or our own send_packet() fails on it; then receives of
+    # every kind: B and C must come first, then ConnectionAbortedError for ever
+    for api in ("tcp", "atcp"):
+        for path in ("copy", "buffered"):
+            for close in ("rst", "fin"):
+                base = {"spec": lf, "path": path, "api": api, "events": [["data", "410a420a430a"], ["eof"]], "mid": True,
+                        "close": close, "maxrecv": 16384, "close_inside": False}
+                tail = [{"k": "recv", "t": "none"}] * 5
+                for noticed in (0, 3):
+                    out.append({**base, "noticed": noticed, "calls": [{"k": "recv", "t": "none"}, {"k": "close"}] + tail})
+                    out.append({**base, "noticed": noticed, "calls": [{"k": "recv", "t": "none"}, {"k": "close"}, {"k": "send"}] + tail})
+                out.append({**base, "noticed": 3, "calls": [{"k": "recv", "t": "none"}, {"k": "close"}, {"k": "iter", "t": "zero"},
+                                                            {"k": "iter", "t": "pos"}] + tail})
+                out.append({**base, "noticed": 1, "calls": [{"k": "recv", "t": "zero"}, {"k": "send"}, {"k": "close"}, {"k": "send"},
+                                                            {"k": "send"}, {"k": "recv", "t": "zero"}, {"k": "iter", "t": "pos"}] + tail})
+                # small reads: only part of the burst is in the consumer when the connection is lost
+                out.append({**base, "maxrecv": 3, "noticed": 3, "events": [["data", "410a420a"], ["data", "430a440a"], ["eof"]],
+                            "calls": [{"k": "recv", "t": "none"}, {"k": "close"}, {"k": "send"}] + tail})
     # asynchronous endpoint: receives under an expired deadline while complete packets are buffered
     for path in ("copy", "buffered"):
         out.append({"spec": crlf, "path": path, "api": "async", "events": [["data", "610d0a620d0a630d0a"], ["data", "640d0a"], ["eof"]],
@@ -562,6 +913,8 @@ def generate(rng, tier: str, boost: int):
         yield _gen_case(rng, rng.choice(["sync", "sync", "async"]))
     for _ in range((40 if tier == "quick" else 400) * boost):
         yield _gen_case(rng, rng.choice(["tcp", "atcp"]))
+    for _ in range((200 if tier == "quick" else 2000) * boost):
+        yield _gen_mid_case(rng, rng.choice(["tcp", "atcp", "atcp"]))
 
 
 def after_batch() -> None:
